@@ -869,6 +869,7 @@ pub fn judge(focus: Focus, bytes: &[u8], v: &Verdict, ops: &[String], wellformed
                             o.labels.push("accepted-corrupted".into());
                         }
                     }
+                    UseV::Panic { loc, msg } if loc.starts_with("harness/") => return Err(Failure::new(format!("harness-panic:{}", loc), format!("harness bug: {}", msg)).with(detail())),
                     UseV::Panic { loc, msg } => return Err(Failure::new(format!("use-panic:{}", loc), format!("file loaded, then an accessor panicked at {}: {}", loc, msg)).with(detail())),
                     UseV::Dims(m) => return Err(Failure::new("use-dims", format!("file loaded, then: {}", m)).with(detail())),
                     UseV::Died { what } => return Err(Failure::new(format!("use-died:{}", sig_word(what)), format!("file loaded, then the process died while calling accessors: {}", what)).with(detail())),
